@@ -188,6 +188,17 @@ pub fn register_override(ctx: &mut Context, log: &Log, name: &str) {
     });
 }
 
+/// Registers a variadic logging host function (all arguments, evaluated): `ZO!H(<<P("args","any")>>, "pack")`.
+pub fn register_variadic(ctx: &mut Context, log: &Log, name: &str) {
+    let l = log.clone();
+    let n = name.to_string();
+    ctx.add_function(name, move |Arguments(args): Arguments| -> R {
+        let v = Value::List(args.clone());
+        rec(&l, &n, &[&v]);
+        pack(&[&v])
+    });
+}
+
 pub const ZOO_NAMES: &[&str] = &[
     "t", "tb", "fail", "h0", "h1", "h2", "h3", "h4", "m0", "m1", "m2", "m3", "va", "idf", "fi", "fu", "fd",
     "fs", "fy", "fb", "fl", "fis", "msi", "h9", "c0", "c2", "mo",
